@@ -351,6 +351,10 @@ class CallResolver:
         for arg in expr.args:
             if isinstance(arg, Assign):
                 name = arg.name.name.lexeme
+                if arg.name.level is not None:
+                    raise CallResolverError(
+                        f"The notation 'variable[level]' can't be used with the name of an argument: '{name}'"
+                    )
                 if name in kwargs:
                     raise CallResolverError(f"Keyword argument repeated: '{name}'")
                 kwargs[name] = arg.value.accept(self)
